@@ -272,6 +272,7 @@ func (m *urlModule) createURLPrototype() *goja.Object {
 
 	// href
 	m.defineURLAccessorProp(p, "href", func(u *nodeURL) interface{} {
+		u.syncSearchParams()
 		return u.String()
 	}, func(u *nodeURL, arg goja.Value) {
 		u.url = m.parseURL(arg.String(), true)
